@@ -37,6 +37,8 @@ def cases(tier, seed):
     for d in range(1, min(D, 3) + 1):
         shapes += space.sizes_full(d, (1, 2, 3))
     shapes += [[3, 4, 3, 4], [2, 3, 4, 5], [1, 3, 4, 2], [3, 1, 4, 2], [3, 4, 2, 1], [2, 2, 2, 2], [3, 1, 1, 4], [5, 2, 1, 3]]
+    # tall unfoldings (rows >= 10 x columns): the SVD wrapper transposes these
+    shapes += [[20, 2], [2, 20], [11, 1], [24, 1, 2], [30, 3], [2, 2, 12, 1]]
     if D >= 5:
         shapes += [[2, 3, 2, 3, 2], [3, 2, 1, 3, 2], [1, 2, 3, 2, 3], [2, 3, 2, 3, 1], [2, 2, 2, 2, 2, 2], [2, 3, 1, 2, 1, 3], [3, 2, 2, 2, 2, 3]]
         shapes += [[6, 5, 4], [8, 9], [4, 4, 4, 4], [7, 3, 5]]
@@ -46,7 +48,7 @@ def cases(tier, seed):
             if fam in ('flat', 'flat2', 'saturating') and int(np.prod(N)) < 4:
                 continue
             for dt in ('f64', 'c128', 'f32'):
-                if dt != 'f64' and (fam in ('lowrank_int', 'flat2') or (tier == 'quick' and d > 3)):
+                if dt != 'f64' and (fam in ('lowrank_int', 'flat2') or (tier == 'quick' and d > 3 and max(N) < 10)):
                     continue
                 for src, shp in (('torch', 'none'), ('numpy', 'none'), ('torch', 'list')):
                     if (src, shp) != ('torch', 'none') and (dt != 'f64' or fam not in ('lowrank', 'decay')):
